@@ -565,8 +565,8 @@ def diff_class(a, b):
             if tag == "equal":
                 continue
             gone = la[i1:i2]
-            if not (tag == "delete" and len(gone) % 3 == 0 and
-                    all(gone[k] == "(" and re.match(r"^Fi[A-Za-z]+$", gone[k + 1]) and gone[k + 2] == ")" for k in range(0, len(gone), 3))):
+            # a cast `(FiXxx)` and the parentheses that wrapped the cast expression
+            if not (tag == "delete" and all(g in ("(", ")") or re.match(r"^Fi[A-Za-z]+$", g) for g in gone)):
                 casts = False
                 break
         return "only-casts-missing" if casts else "token-count-differs"
